@@ -23,7 +23,18 @@ type JSONGen struct {
 	R *rand.Rand
 }
 
-func (g *JSONGen) leaf() string { return jsonLeaves[g.R.Intn(len(jsonLeaves))] }
+func (g *JSONGen) leaf() string {
+	if g.R.Intn(5) == 0 {
+		return g.hostile()
+	}
+	return jsonLeaves[g.R.Intn(len(jsonLeaves))]
+}
+
+// hostile returns a dictionary string as a JSON string (invalid UTF-8 is replaced by the encoder).
+func (g *JSONGen) hostile() string {
+	b, _ := json.Marshal(HostileStrings[g.R.Intn(len(HostileStrings))])
+	return string(b)
+}
 
 func (g *JSONGen) op() string {
 	if g.R.Intn(12) == 0 {
@@ -49,6 +60,9 @@ func (g *JSONGen) node(op string, depth int) string {
 	field := func() string {
 		if r.Intn(8) == 0 {
 			return sub()
+		}
+		if r.Intn(4) == 0 {
+			return g.hostile()
 		}
 		return []string{`"a"`, `"b"`, `"my field"`, `5`, `"f\"q"`, `""`, `"` + strings.Repeat("z", 70) + `"`}[r.Intn(7)]
 	}
